@@ -106,7 +106,7 @@ def run(tier):
     chk = Check("C14", tier, LEVEL)
     rnd = random.Random(chk.seed * 65537 + 14)
     quick = tier == "quick"
-    cfg = tlc.SPEC_DIR / "_gen_gettsim.cfg"
+    cfg = tlc.SPEC_DIR / f"_gen_gettsim_{os.getpid()}.cfg"
     cfg.write_text(
         'CONSTANTS\n  Dates = {"d1", "d2"}\n  Pops = {"p1", "p2"}\n  TargetSets = {"T1", "T2"}\n  Groups = {"g1"}\n  Rules = {"f1"}\n'
         f"  MaxLen = {4 if quick else 5}\n  MaxEnvs = 2\nSPECIFICATION Spec\nINVARIANT TypeOK\nCHECK_DEADLOCK FALSE\n"
